@@ -371,6 +371,39 @@ def mon_C15(md_lib, cfg, ops, impl, stats, r=None):
     return out
 
 # ---- C13 --------------------------------------------------------------------------------------------
+# ---- state ids are numbered per engine: for comparisons across configurations translate them (and the machine
+# paths, which consist of state ids) back to declaration indices
+def decl_path(libpath, ids):
+    parts = libpath.split(".")
+    out = ["r"]
+    for p_ in parts[1:]:
+        inv = {lib: decl for decl, lib in enumerate(ids[".".join(out)])}
+        out.append(str(inv[int(p_)]))
+    return ".".join(out)
+
+def canon_block(block, ids):
+    out = []
+    for l in block:
+        try:
+            p = parse(l)
+            if p:
+                dp = decl_path(p["path"], ids)
+                inv = {lib: decl for decl, lib in enumerate(ids[dp])}
+                sid = inv.get(p["id"], p["id"]) if p["tag"] in ("N", "X", "NT") else p["id"]
+                obs = ",".join(str(inv.get(x, x)) for x in p["obs"])
+                out.append("%s %s %d e%d p%d w%d [%s]" % (p["tag"], dp, sid, p["ety"], p["pay"], p["w"], obs))
+            elif l.startswith("SNAP"):
+                tag, path, lst = l.split(" ", 2)
+                dp = decl_path(path, ids)
+                inv = {lib: decl for decl, lib in enumerate(ids[dp])}
+                xs = [int(x) for x in lst.strip("[]").split(",")] if lst != "[]" else []
+                out.append("%s %s [%s]" % (tag, dp, ",".join(str(inv.get(x, x)) for x in xs)))
+            else:
+                out.append(l)
+        except Exception:
+            out.append(l)
+    return out
+
 def proj_C13(block):
     """what must be identical across back-ends: every behaviour invocation with order and arguments, the active ids
     after the operation, and the handled / zero status"""
